@@ -3,6 +3,7 @@ package props
 import (
 	"bytes"
 	"fmt"
+	"github.com/ethereum/go-ethereum/rlp"
 	"github.com/ontio/ontology-crypto/keypair"
 	"math/big"
 
@@ -22,7 +23,7 @@ func init() {
 	simkit.Register(&simkit.Prop{
 		ID:             "C19",
 		Desc:           "transaction encoding is canonical and its hash binds the signed content",
-		Rule:           "a run = 10..60 transactions (invoke, deploy, EIP-155; 0..3 signature sets, canonical and hand-assembled scripts) each altered on the wire by a tape-chosen fault: none / byte flip / truncation / trailing bytes / a minimal var-int re-encoded non-minimally (0xfd/0xfe/0xff forms) at a tape-chosen var-int position / a length field changed / only signature bytes changed / size blown over 1 MiB by the code or by the signature section (checked against both TransactionFromRawBytes and the stream decoder Transaction.Deserialization used for blocks and p2p messages). For every byte string the node's decoder (TransactionFromRawBytes) ACCEPTS: ToArray() equals the consumed bytes; the unsigned part re-encoded from the PARSED FIELDS (a MutableTransaction built from them and serialised, which does not reuse the captured bytes) equals the consumed unsigned prefix; hash = sha256^2(unsigned prefix) (Ontology format) or the EIP-155 transaction hash; a change confined to the signature section leaves the hash unchanged; inputs over the size limit are rejected. non-trivial = >= 3 accepted altered inputs evaluated and >= 1 rejected; distinct = distinct event-trace hash",
+		Rule:           "a run = 10..60 transactions (invoke, deploy, EIP-155 transfers and contract creations, some of which the node must refuse - gas price not a multiple of GWei, nonce beyond 32 bits - without panicking; 0..3 signature sets, canonical and hand-assembled scripts) each altered on the wire by a tape-chosen fault: none / byte flip / truncation / trailing bytes / a minimal var-int re-encoded non-minimally (0xfd/0xfe/0xff forms) at a tape-chosen var-int position / a length field changed / only signature bytes changed / padding after the RLP value inside an EIP-155 var-bytes field / size blown over 1 MiB by the code or by the signature section (checked against both TransactionFromRawBytes and the stream decoder Transaction.Deserialization used for blocks and p2p messages). For every byte string the node's decoder (TransactionFromRawBytes) ACCEPTS: ToArray() equals the consumed bytes; the unsigned part re-encoded from the PARSED FIELDS (a MutableTransaction built from them and serialised, which does not reuse the captured bytes) equals the consumed unsigned prefix; hash = sha256^2(unsigned prefix) (Ontology format) or the EIP-155 transaction hash; a change confined to the signature section leaves the hash unchanged; inputs over the size limit are rejected. non-trivial = >= 3 accepted altered inputs evaluated and >= 1 rejected; distinct = distinct event-trace hash",
 		Real:           []string{"core/types transaction codec (Deserialization, IntoMutable, serialisation)", "core/payload codecs", "common zero-copy source/sink"},
 		Stub:           []string{"client and corrupting link (harness)"},
 		Assumptions:    []string{"the only simulator dimension is in-flight corruption; exploration over generated corruptions, not all byte strings", "the signature section is compared byte-for-byte only through ToArray (a different but valid script encoding is not a hash-relevant difference)"},
@@ -110,6 +111,10 @@ func c19CheckAccepted(c *simkit.Ctx, in []byte, fault string) {
 		if common.Uint256(eip.Hash()) != tx.Hash() {
 			c.Fail("hash-not-eip155-hash", fault, "tx hash %x, eth hash %x", tx.Hash(), eip.Hash())
 		}
+		// one transaction, one encoding: wrapping the parsed Ethereum transaction again gives the consumed bytes
+		if again, err := types.TransactionFromEIP155(eip); err != nil || !bytes.Equal(again.ToArray(), consumed) {
+			c.Fail("encoding-not-canonical", fault+"/eip155", "the accepted EIP-155 encoding (%d bytes) differs from the canonical encoding of the transaction it carries (err %v)", len(consumed), err)
+		}
 		return
 	}
 	// re-encode the unsigned part from the parsed fields
@@ -146,7 +151,8 @@ func runC19(c *simkit.Ctx) {
 	n := 10 + t.Choose(51)
 	evaluated, rejected := 0, 0
 	for i := 0; i < n; i++ {
-		var raw []byte
+		var raw, eipRLP []byte
+		hostile := ""
 		kind := t.Pick(5, 2, 2)
 		switch kind {
 		case 0, 1:
@@ -175,21 +181,67 @@ func runC19(c *simkit.Ctx) {
 		case 2:
 			e := w.eth[t.Choose(len(w.eth))]
 			chain := big.NewInt(int64(config.DefConfig.P2PNode.EVMChainId))
-			etx := ethtypes.NewTransaction(uint64(t.Choose(1000)), e.addr, big.NewInt(int64(t.Choose(1000))), 21000, big.NewInt(int64(constants.GWei)*int64(t.Choose(3))), t.Bytes(t.Choose(20)))
+			// a transfer or a contract creation; now and then one the node must refuse (gas price not a
+			// multiple of GWei, nonce beyond 32 bits) - refusing must not panic
+			nonce, price := uint64(t.Choose(1000)), big.NewInt(int64(constants.GWei)*int64(t.Choose(3)))
+			creation := t.Prob(1, 4)
+			switch t.Pick(8, 1, 1) {
+			case 1:
+				price = big.NewInt(int64(constants.GWei)*int64(t.Choose(3)) + 1 + int64(t.Choose(999)))
+				hostile = "gas price not a multiple of GWei"
+			case 2:
+				nonce = 1<<32 + uint64(t.Choose(5))
+				hostile = "nonce beyond 32 bits"
+			}
+			var etx *ethtypes.Transaction
+			if creation {
+				etx = ethtypes.NewContractCreation(nonce, big.NewInt(int64(t.Choose(1000))), 100000, price, append([]byte{0x60, 0x00}, t.Bytes(t.Choose(20))...))
+			} else {
+				etx = ethtypes.NewTransaction(nonce, e.addr, big.NewInt(int64(t.Choose(1000))), 21000, price, t.Bytes(t.Choose(20)))
+			}
 			signed, err := ethtypes.SignTx(etx, ethtypes.NewEIP155Signer(chain), e.key)
 			c.Must(err, "sign eip155")
-			otx, err := types.TransactionFromEIP155(signed)
-			c.Must(err, "wrap eip155")
-			raw = otx.Raw
+			eipRLP, err = rlp.EncodeToBytes(signed)
+			c.Must(err, "rlp")
+			sk := common.NewZeroCopySink(nil)
+			sk.WriteByte(0)
+			sk.WriteByte(byte(types.EIP155))
+			sk.WriteVarBytes(eipRLP)
+			raw = sk.Bytes()
+			if hostile != "" {
+				if creation {
+					hostile += " (contract creation)"
+				}
+				_, derr := types.TransactionFromRawBytes(append([]byte(nil), raw...))
+				stx := new(types.Transaction)
+				serr := stx.Deserialization(common.NewZeroCopySource(append([]byte(nil), raw...)))
+				c.Logf("tx %d eip155 that must be refused (%s): raw decoder err=%v, stream decoder err=%v", i, hostile, derr, serr)
+				if derr == nil || serr == nil {
+					c.Fail("eip155-rule-not-enforced", hostile, "an EIP-155 transaction with %s was accepted", hostile)
+				}
+				c.Probe("hostile_eip155_refused")
+				rejected++
+				continue
+			}
 		}
 		orig, err := types.TransactionFromRawBytes(append([]byte(nil), raw...))
 		if err != nil {
 			c.Harness("own transaction does not decode: %v", err)
 		}
-		fault := t.Pick(2, 4, 2, 2, 4, 2, 3, 1)
-		name := []string{"none", "flip-byte", "truncate", "trailing-bytes", "nonminimal-varint", "length-field", "signature-bytes-only", "oversize"}[fault]
+		fault := t.Pick(2, 4, 2, 2, 4, 2, 3, 1, 2)
+		name := []string{"none", "flip-byte", "truncate", "trailing-bytes", "nonminimal-varint", "length-field", "signature-bytes-only", "oversize", "eip155-padding-inside"}[fault]
 		in := append([]byte(nil), raw...)
+		if fault == 8 && eipRLP == nil {
+			fault, name = 0, "none"
+		}
 		switch fault {
+		case 8:
+			// bytes after the RLP value, inside the var-bytes field that carries it
+			sk := common.NewZeroCopySink(nil)
+			sk.WriteByte(0)
+			sk.WriteByte(byte(types.EIP155))
+			sk.WriteVarBytes(append(append([]byte(nil), eipRLP...), t.Bytes(1+t.Choose(20))...))
+			in = sk.Bytes()
 		case 1:
 			in[t.Choose(len(in))] ^= byte(1 + t.Choose(255))
 		case 2:
